@@ -173,6 +173,14 @@ pub fn gen(rng: &mut Rng, tier: Tier, out: &mut Vec<String>) {
         let mut c2 = c.clone(); c2[0] = Cmplx::new(-(rng.range(1, 9) as f64), 0.0); emit(out, "f", "pure-power", refine, &c2, &[]);
         emit(out, "c", "monomial", refine, &c, &vec![z0; deg]);
     } }
+    // x^n + c with a complex constant on an axis (roots on a circle; for n = 3 the Cardano square root falls
+    // exactly on its branch cut, -27 a^2 dis = -729 c^2 with a signed-zero imaginary part)
+    for deg in 2..=6usize { for refine in 0..2usize { for cst in [Cmplx::new(0.0, 1.0), Cmplx::new(0.0, -1.0), Cmplx::new(0.0, 8.0), Cmplx::new(0.0, -8.0), Cmplx::new(-1.0, 0.0), Cmplx::new(-0.0, 2.0), Cmplx::new(1.0, -0.0), Cmplx::new(1.0, 1.0)] {
+        let mut c = vec![z0; deg + 1]; c[deg] = Cmplx::new(1.0, 0.0); c[0] = cst;
+        emit(out, "c", "pure-power-complex", refine, &c, &[]);
+        let mut c2 = c.clone(); c2[deg] = Cmplx::new(0.0, rng.range(1, 3) as f64); c2[0] = Cmplx::new(cst.imag, cst.real);
+        emit(out, "c", "pure-power-complex", refine, &c2, &[]);
+    } } }
     // degree 0 and the empty polynomial are rejected
     emit(out, "f", "degree0", 0, &[Cmplx::new(3.0, 0.0)], &[]);
     emit(out, "c", "degree0", 1, &[Cmplx::new(3.0, 1.0)], &[]);
